@@ -180,7 +180,7 @@ func init() {
 			upd := c.cmdFns("update")
 			return []*Result{keyHas(c.RuleFsTarget([]string{"update"}), 1, "cmd update"), c.RuleSplitJoinFrame(), inFns(c.RuleRxRebuild(), upd, 1),
 				inFns(c.RuleValidate(), upd, 1), c.RuleTemplate(upd), inFns(c.RuleFsWriteDiscipline(), upd, 1), inFns(c.RuleResolve(), upd, 1), keyHas(c.RuleIsoFresh(), 1, "cmd update"),
-				inFns(c.RuleNarrow(), upd, 1), inFns(c.RuleSiblingRuleId(), upd, 1), c.RuleIsoGlobal("update"), c.RuleSiblingLocator(), inFns(c.errHandleOnly(), upd, 2), c.RuleWriteReached("update"), c.RuleRxGrammar(), keyHas(c.RuleResolve(), 1, "input of the assembler"), c.RulePatternPin("regex.RuleRxRegex", "regex.SecRuleRegex"), c.RuleReadLine(), c.RuleBorrow(), c.RuleSearchResume(), c.RuleGoShared(), c.RuleWalkSkip("update"), c.RuleLitGuard(), c.RuleLocComment()}
+				inFns(c.RuleNarrow(), upd, 1), inFns(c.RuleSiblingRuleId(), upd, 1), c.RuleIsoGlobal("update"), c.RuleSiblingLocator(), inFns(c.errHandleOnly(), upd, 2), c.RuleWriteReached("update"), c.RuleRxGrammar(), keyHas(c.RuleResolve(), 1, "input of the assembler"), c.RulePatternPin("regex.RuleRxRegex", "regex.SecRuleRegex"), c.RuleReadLine(), c.RuleBorrow(), c.RuleSearchResume(), c.RuleGoShared(), c.RuleWalkSkip("update"), c.RuleLitGuard(), c.RuleLocComment(), c.RuleCompareVerdict()}
 		})
 
 	prop("C12", "other",
